@@ -97,6 +97,7 @@ def run(ctx):
     todo += [("2", s) for s in core.v2_low_family()]
     for v in "234":
         todo += [(v, s) for s in core.singletons(v, rng, ctx.n(30, 400))]
+        todo += [(v, s) for s in core.special(v, rng, ctx.n(1500, 30000))]
     ctx.count(len(todo))
     objs = []
     for ver, s in todo:
@@ -105,6 +106,27 @@ def run(ctx):
             ctx.violation("v%s:valid-vector-rejected" % ver, "accepted vector rejected", s, "accepted", e, replay={"ver": ver, "s": s})
             continue
         check_obj(ctx, ver, s, o, atlas)
+    # 3.0 / 3.1 TWINS rated back to back (the same metrics under the other minor version, in both orders), and the same
+    # string rated again: a rating must follow the object's OWN scores whatever was rated just before
+    tw = [s for v, s in todo if v == "3"]
+    tw = tw[:: max(1, len(tw) // ctx.n(2500, 40000))] + core.corners("3", rng, ctx.n(1500, 20000))
+    for s in tw:
+        if not s.startswith("CVSS:3."):
+            continue
+        other = ("CVSS:3.1/" if s.startswith("CVSS:3.0/") else "CVSS:3.0/") + s[9:]
+        for a, b in ((s, other), (other, s)) if rng.random() < 0.5 else ((other, s),):
+            for x in (a, b, a):
+                o, e = obs.construct("3", x)
+                if o is not None:
+                    ctx.count()
+                    check_obj(ctx, "3", x, o, atlas)
+    # several threads asking ONE fresh object at the same moment
+    from .. import conc
+    shared = [(v, s) for v, s in todo[:: max(1, len(todo) // ctx.n(500, 5000))]]
+    conc.shared_objects(ctx, lambda vs: obs.construct(vs[0], vs[1])[0],
+                        lambda o: (tuple(o.severities()), tuple(o.scores())),
+                        lambda o: (tuple(o.severities()), tuple(o.scores())), shared, "ratings",
+                        replay_of=lambda vs: {"ver": vs[0], "s": vs[1], "shared_threads": 4})
     # ratings of the atlas against the official scale (Lean spec) and model-vs-code on scores+severities
     keys = sorted(atlas)
     for k in keys:
@@ -138,6 +160,22 @@ def run(ctx):
 
 def replay(data):
     r = data["replay"]
+    if r.get("shared_threads"):
+        from .. import conc
+
+        class C0:
+            v = []
+
+            def violation(self, sig, what, *a, **k):
+                self.v.append(sig + ": " + what)
+
+            def count(self, *a):
+                pass
+        c0 = C0()
+        conc.shared_objects(c0, lambda vs: obs.construct(vs[0], vs[1])[0], lambda o: (tuple(o.severities()), tuple(o.scores())),
+                            lambda o: (tuple(o.severities()), tuple(o.scores())), [(r["ver"], r["s"])] * 3000, "ratings")
+        return not c0.v, "CVSS%s(%r): severities()/scores() from 4 threads on one fresh object, 3000 objects: %s" % (
+            r["ver"], r["s"], "; ".join(c0.v) or "always the single-threaded result")
     o, e = obs.construct(r["ver"], r["s"], warm=True)
     if o is None:
         return False, "rejected %s" % e
